@@ -529,6 +529,13 @@ def run(ctx: common.Ctx):
     ctx.evaluations += int(stamps.size)
     with ctx.impl('datetime-exception', inp):
       nd = xu.datetime64_to_nondim_time(stamps, specs, ref)
+      # numpy crashes (segmentation fault) when datetime64[ns] + timedelta64[m] overflows int64, so a conversion
+      # that is off by a large factor is reported here instead of being passed on to numpy
+      mins_chk = np.asarray(specs.dimensionalize(nd, units.minute).magnitude, dtype=float)
+      if not (np.isfinite(mins_chk).all() and np.abs(mins_chk).max() <= 1.4e8):
+        ctx.fail('datetime-roundtrip', 'minutes recovered from model time are outside +-266 years although all stamps '
+                 f'are within +-120 years of the reference (max |minutes| = {np.abs(mins_chk).max()})', inp)
+        continue
       back = xu.nondim_time_to_datetime64(nd, specs, ref)
       bad = np.nonzero(back != stamps)[0]
       ctx.expect(bad.size == 0, 'datetime-roundtrip',
